@@ -10,7 +10,7 @@ ID = 'C18'
 LEVEL = 'exploration'
 NEEDS = ('threads', 'aio', 'proc')
 PROC_READY = True
-QUICK = dict(runs=2500, wall=85)
+QUICK = dict(runs=7500, wall=85)
 THOROUGH = dict(runs=150000, wall=1500)
 RULE = ('socket: real SocketServer.serve() in one simulated thread/loop, real SocketClient (its executor thread and loop), 1-4 connections, '
         '1-4 requester threads plus stream(); routes: echo with payload-determined latency (responses complete out of order), raising '
